@@ -162,6 +162,34 @@ def random_ahb(rng, kind="any"):
     return lines
 
 
+def with_repeated_discriminators(rng, lines, p):
+    """the same AHB with some discriminators repeated: a node takes over the discriminator of an earlier node of its kind (an earlier sibling with
+    probability 2/3). Discriminators are neither unique nor mandatory in real AHBs (SG2 twice at the top level, repeated data element names)."""
+    seen = {"G": [], "S": [], "D": []}
+
+    def pick(kind, sibs, own):
+        pool = sibs if sibs and rng.random() < 0.67 else seen[kind]
+        d = rng.choice(pool) if pool and rng.random() < p else own
+        seen[kind].append(d)
+        sibs.append(d)
+        return d
+
+    def go(n, sibs):
+        if n[0] == "G":
+            d = pick("G", sibs["G"], n[1])
+            inner = {"G": [], "S": [], "D": []}
+            return ("G", d, n[2], [go(c, inner) for c in n[3]])
+        if n[0] == "S":
+            d = pick("S", sibs["S"], n[1])
+            inner = {"G": [], "S": [], "D": []}
+            return ("S", d, n[2], [go(c, inner) for c in n[3]])
+        d = pick("D", sibs["D"], n[1])
+        return (n[0], d) + tuple(n[2:])
+
+    top = {"G": [], "S": [], "D": []}
+    return [go(n, top) for n in lines]
+
+
 def map_exprs(node, f):
     """apply f to every AHB expression string of the tree"""
     k = node[0]
@@ -311,7 +339,7 @@ def reset_cer(case):
     evalimpl.set_cer(rc=rc, hints=h, fc=fc, packages=dict(case["packages"]))
 
 
-def validation_cases(ctx, n_trees, kind="any", unknown=0.05, flags=(True, False), revisit=0.0):
+def validation_cases(ctx, n_trees, kind="any", unknown=0.05, flags=(True, False), revisit=0.0, repeat_discriminators=0.0):
     """yields dicts: cer, lines, soll, result, cache, term (Gallina val_case).
     revisit: probability that a tree is the previous tree again, validated under another content evaluation result (the same expression strings
     meet other content in the same process)"""
@@ -322,6 +350,8 @@ def validation_cases(ctx, n_trees, kind="any", unknown=0.05, flags=(True, False)
         cache = ExprCache()
         if lines is None or revisit <= 0 or ctx.rng.random() >= revisit:
             lines = random_ahb(ctx.rng, kind)
+            if repeat_discriminators > 0:
+                lines = with_repeated_discriminators(ctx.rng, lines, repeat_discriminators)
         lt = "[" + "; ".join(node_term(n, cache) for n in lines) + "]"
         inv = {m for m in cache.inv.values() if m}
         kinds = {"G": 0, "S": 0, "F": 0, "P": 0}
